@@ -428,8 +428,30 @@ class Program:
     def fn(self, path):
         f = self.fns.get(path)
         if f is None:
+            f = self._relocated(path)
+        if f is None:
             raise FactsError('anchor function not found: %s' % path)
         return f
+
+    def _relocated(self, path):
+        """a private helper that was moved to another module keeps its crate and item name: accept a
+        unique free function / inherent method with the same crate, final segment (and owner type)"""
+        if path.startswith('<') or '{closure' in path:
+            return None
+        parts = path.split('::')
+        crate, last = parts[0], parts[-1]
+        owner = parts[-2] if len(parts) > 2 and parts[-2][:1].isupper() else None
+        cands = []
+        for p, f in self.fns.items():
+            if f.crate != crate or p.startswith('<') or '{closure' in p or f.kind == 'Promoted':
+                continue
+            ps = p.split('::')
+            if ps[-1] != last:
+                continue
+            o = ps[-2] if len(ps) > 2 and ps[-2][:1].isupper() else None
+            if (owner or '').split('<')[0] == (o or '').split('<')[0]:
+                cands.append(f)
+        return cands[0] if len(cands) == 1 else None
 
     def find(self, rx, crate=None):
         r = re.compile(rx)
